@@ -64,7 +64,7 @@ def depth(f):
 
 def check_one(f):
     out = []
-    obj = av.b_filter(f)
+    obj = av.b_filter(av.fresh(f))  # the tree owns its values: they die with it
     try:
         s = str(obj)
     except Exception as e:
